@@ -14,6 +14,10 @@ CLAIMED = {
     text="proof: Coq theorems (Props/C03.v): the worklist of propagate_lin_cc_judgements returns exactly the greatest dependency-closed subset of the initially linear nodes for every graph and marking; analytic membership in the model of _find_analytically_solvable_equations is sound (empty nonlinear part, coefficients/offset made of parameters only) and closed under dependencies; the analytic/numeric partition is an exact cover. Tie: per-variable verdict of the implementation (API partition, hook H1 or internal pipeline when exponentiation fails) vs the model, and the worklist called directly on random graphs, both decided in Coq; probes check cover/soundness/closure on API results and a brute-force gfp.",
     note="Trusted: Coq kernel/vm_compute; harness; SymPy expand/_is_zero on canonical Laurent polynomials (zero = no terms) and scipy SCC (own reachability in the model) modelled not verified; worklist fuel validated by correspondence.",
     technique="Coq proof (worklist invariant, gfp characterisation) + verdict correspondence", ref="5/C03"),
+ "C04": dict(
+    text="proof: Coq theorems (Props/C04.v): the shape-level verdict after both splits is 'linear, constant coefficients' exactly when every term of the canonical right-hand side is constant or a constant times one state variable (independent of term order and of the other shapes); a variable is analytic iff everything reachable from it along dependencies is so recognised and hits neither documented exception (c04_complete, via the worklist gfp theorem). Tie: 7 algebraically equivalent spellings x entry orders of each canonical system, observed analytic set vs the model decided in Coq; probes: an independent differential criterion (sympy.diff on the spelled text + exceptions + closure) and equality of the analytic set across spellings.",
+    note="Trusted: Coq kernel/vm_compute; harness; oracle: SymPy expand() canonicalises every spelling (validated per case, not proved); probe oracle sympy.diff/simplify.",
+    technique="Coq proof (idempotence of the two-level split, gfp completeness) + spelling correspondence", ref="5/C04"),
  "C15": dict(
     text="proof: Coq theorems (Props/C15.v) over a model of the three generators and the dispatch, generic in a totally ordered number type with monotone addition: a regular train is exactly the multiples k*isi <= T (none missing, nothing else); a Poisson train, for every sequence of draws, has gaps >= min_isi, is strictly increasing and lies in (0,T]; a list stimulus is the sorted permutation of the listed times <= T for any length; each renamed target gets the in-order concatenation of the trains of all stimuli targeting it. Tie: the same Gallina functions instantiated with PrimFloat are compared bit-exactly (in Coq) with spike_times_from_json on generated stimuli sets; property text probed directly.",
     note="Trusted: Coq kernel/vm_compute, PrimFloat only in the executable instance; correspondence harness (draw replay, hex-float printing); np.loadtxt/np.sort/set order/random/math.log modelled not verified; theorems over exact ordered arithmetic.",
